@@ -51,7 +51,14 @@ fn render_one(vm: &Thread, name: &str, src: &str) -> String {
         Err(e) => {
             let plain = e.to_string();
             let rendered = e.emit_string().unwrap_or_else(|err| format!("<emit_string failed: {}>", err));
-            format!("ERROR {}\nRENDERED {}", plain, rendered)
+            // An internal failure (ice!) that is reported as an error prints the Debug form of a
+            // value, addresses included; like for compiler panics below only the text outside the
+            // addresses takes part in the comparison (the failure itself is C01 / C02's finding)
+            if plain.contains("Please report an issue at https://github.com/gluon-lang/gluon/issues") {
+                format!("ERROR {}\nRENDERED {}", mask_addresses(&plain), mask_addresses(&rendered))
+            } else {
+                format!("ERROR {}\nRENDERED {}", plain, rendered)
+            }
         }
     });
     match res {
@@ -63,6 +70,25 @@ fn render_one(vm: &Thread, name: &str, src: &str) -> String {
         // panic site takes part in the comparison
         Err((loc, _)) => format!("PANIC {}", crate::worker::strip_repo(&loc)),
     }
+}
+
+/// `0x55daefd757c0` -> `0x?`
+fn mask_addresses(s: &str) -> String {
+    let mut out = String::new();
+    let mut rest = s;
+    while let Some(p) = rest.find("0x") {
+        out.push_str(&rest[..p + 2]);
+        let tail = &rest[p + 2..];
+        let n = tail.chars().take_while(|c| c.is_ascii_hexdigit()).count();
+        if n >= 6 {
+            out.push('?');
+            rest = &tail[n..];
+        } else {
+            rest = tail;
+        }
+    }
+    out.push_str(rest);
+    out
 }
 
 /// erases the numeric suffix of generated `implicit?N` binder names
